@@ -348,6 +348,47 @@ for _side, _flag in (("include", True), ("exclude", False)):
         replayable=False,
     )
 
+
+# ------------------------------------------------------------------------------------------------- filtering by expression: `pointer == value` / `pointer != value` on the resolved definition
+R.contract(F + "parse_expression", args={"expression": Str}, trusted=True, raises=["ValueError"],
+           returns=lambda it, env: it.ghost.__setitem__("parsed", (Str.make(it, it.path.fresh("pointer")), Choice("==", "!=").make(it, it.path.fresh("op")), fresh_opaque(it, "JsonValue"))) or it.ghost["parsed"],
+           note="splits `<pointer> ==|!= <json or text>` (string surgery: outside the z3 fragment used here; exercised by the repository's tests only)")
+R.contract("schemathesis.core.transforms:resolve_pointer", args={"document": Opq("Any"), "pointer": Str}, returns=Opq("JsonValue"), pure=True, trusted=True, note="C10 stand-in resolve_pointer_rfc6901")
+R.alias("at_pointer", "schemathesis.core.transforms:resolve_pointer")
+
+
+def _expr_filter_setup(it):
+    from pyvc.verify import locate
+
+    _, _, outer = locate(it, F + "expression_to_filter_function")
+    saved = it.top_target
+    it.top_target = F + "expression_to_filter_function"
+    from pyvc.interp import PyExc
+    from pyvc.path import Abort
+
+    try:
+        fn = it.call_function(outer, [Str.make(it, "expression")], {})
+    except PyExc:
+        raise Abort()  # the expression was rejected (ValueError): there is no filter to verify on this path
+    finally:
+        it.top_target = saved
+    return fn, {}
+
+
+R.contract(
+    F + "expression_to_filter_function.<locals>.filter_function",
+    prop="C07",
+    setup=_expr_filter_setup,
+    args={"ctx": Obj("spec:OpCtx", operation=Obj("spec:OpWithDefinition", definition=Obj("spec:Def", resolved=Opq("ResolvedDefinition"), raw=Opq("RawDefinition"))))},
+    ghost={"parsed": None},
+    raises=[],
+    ensures={
+        # "by expression": the operation is selected iff the value at the pointer in its RESOLVED definition equals (==) / differs from (!=) the given value
+        "selected_iff_the_comparison_of_the_expression_holds": "result == ((at_pointer(ctx.operation.definition.resolved, ghost('parsed')[0]) == ghost('parsed')[2]) == (ghost('parsed')[1] == '=='))",
+    },
+    replayable=False,
+)
+
 LEVEL_TEXT = ("Deductive: the selection rule of the property is the machine-checked postcondition of the real FilterSet.match (loop invariant, sets of any size); "
               "matchers, attribute access, _should_skip (with an arbitrary stale shared cache), the GraphQL variant and the link rule carry their own contracts, "
               "all discharged by z3 from the current source on every run. Whole-document iteration is cross-checked by a bounded stand-in only.")
